@@ -47,7 +47,9 @@ Fixpoint node_at (f : fs) (p : path) : option fs :=
                end
   end.
 
-(* ---------- glob.iglob(dir/**/*<suffix>, recursive=True), Python 3.12 ----------
+(* ---------- glob.iglob(escape(dir)/**/*<suffix>, recursive=True), Python 3.12 ----------
+   The directory part of the pattern is glob.escape()d (commit dfdce86), so it is the literal directory
+   [f] whatever characters its path contains; only `**/*<suffix>` is a pattern.
    `**` walks the directory itself and every chain of non-hidden sub-directories (_glob2/_rlistdir);
    in each of them `*<suffix>` is matched with fnmatch against every non-hidden entry, FILE OR
    DIRECTORY (_glob1).  For a suffix without glob metacharacters fnmatch("*"+suffix) = endswith. *)
@@ -88,7 +90,13 @@ Fixpoint map_res {A B} (k : A -> res B) (l : list A) : res (list B) :=
   | x :: r => bind (k x) (fun y => bind (map_res k r) (fun r' => Ok (y :: r')))
   end.
 
-(* ---------- _search_dirs: the underscore filter ---------- *)
+(* ---------- _search_dirs: the is_file test and the underscore filter ---------- *)
+
+(* Path(path_str).is_file(): a fresh look-up of the path glob returned (no symlinks in the model).
+   glob matches directories too (a directory named x.py; every directory when no suffix is given);
+   since commit faed18b `if not path.is_file(): continue` drops them. *)
+Definition is_file_at (f : fs) (p : path) : bool :=
+  match node_at f p with Some File => true | _ => false end.
 
 (* rel_dir_parts = list(parts); name_part = rel_dir_parts.pop()   (IndexError on an empty list) *)
 Definition keep_parts (p : path) : res bool :=
@@ -98,7 +106,11 @@ Definition keep_parts (p : path) : res bool :=
       Ok (negb (existsb underscored rdirs) && (negb (underscored name) || str_eqb name INIT_PY))
   end.
 
-Definition search_dir (suf : str) (f : fs) : res (list path) := filter_res keep_parts (glob_fs suf f).
+(* one iteration of the loop body: is_file first, then the parts are popped *)
+Definition search_step (f : fs) (p : path) : res bool :=
+  if is_file_at f p then keep_parts p else Ok false.
+
+Definition search_dir (suf : str) (f : fs) : res (list path) := filter_res (search_step f) (glob_fs suf f).
 
 (* the same without the error plumbing (search_dir_ok in Proofs.v: search_dir = Ok selected) *)
 Definition keep_b (p : path) : bool :=
@@ -106,7 +118,8 @@ Definition keep_b (p : path) : bool :=
   | [] => false
   | name :: rdirs => negb (existsb underscored rdirs) && (negb (underscored name) || str_eqb name INIT_PY)
   end.
-Definition selected (suf : str) (f : fs) : list path := filter keep_b (glob_fs suf f).
+Definition selected (suf : str) (f : fs) : list path :=
+  filter (fun p => is_file_at f p && keep_b p) (glob_fs suf f).
 
 (* ---------- _filepath_to_python_module ---------- *)
 (* longest dot-free prefix of a (reversed) name, and the rest *)
@@ -151,6 +164,15 @@ Fixpoint strip_prefix (pre l : path) : option path :=
   | a :: pre', b :: l' => if str_eqb a b then strip_prefix pre' l' else None
   | _ :: _, [] => None
   end.
+
+(* ---------- the input class of the recorded finding c20-dotted-name ----------
+   rel = a file's path relative to the directory Python imports from (BASE_DIR, or the directory holding the
+   app package).  The class: some directory name on rel, or the file name without its final suffix
+   (pathlib's notion, = strip_suffix), contains a '.'.  harness/c20.py decides the same predicate on the
+   generated tree (has_interior_dot); the two are compared on every generated file (check_world). *)
+Definition has_dot (n : str) : bool := existsb (N.eqb DOT) n.
+Definition dotted_trigger (rel : path) : bool :=
+  existsb has_dot (removelast rel) || has_dot (strip_suffix (last rel [])).
 
 (* ---------- configuration ---------- *)
 (* one element of COMPONENTS.dirs / STATICFILES_DIRS *)
@@ -349,12 +371,14 @@ Definition check_find (c : find_case) : bool :=
   end.
 
 (* one generated sandbox with all the queries made against it:
-   get_component_files(suffix), get_component_dirs(include_apps), import lookups (root dir, name) *)
+   get_component_files(suffix), get_component_dirs(include_apps), import lookups (root dir, name),
+   and the known-finding trigger as decided by the harness on relative paths of the tree *)
 Definition world_case :=
   (world * list (option str * res (list entry)) * list (bool * res (list path))
-   * list (path * str * option path))%type.
+   * list (path * str * option path) * list (path * bool))%type.
 Definition check_world (c : world_case) : bool :=
-  let '(w, fq, dq, iq) := c in
+  let '(w, fq, dq, iq, tq) := c in
   forallb (fun q => check_files (w, fst q, snd q)) fq &&
   forallb (fun q => check_dirs (w, fst q, snd q)) dq &&
-  forallb (fun q => let '(r, name, obs) := q in check_find (tree_at (w_root w) r, name, obs)) iq.
+  forallb (fun q => let '(r, name, obs) := q in check_find (tree_at (w_root w) r, name, obs)) iq &&
+  forallb (fun q => Bool.eqb (dotted_trigger (fst q)) (snd q)) tq.
